@@ -204,6 +204,18 @@ def guardxform_obligations(ctx, facts, key, rule="GUARDXFORM"):
 
 
 # ---------------------------------------------------------------------------------------------- FST-PYPI
+def _lowercase_of_elem(t, is_elem):
+    """t = to_lowercase(elem), possibly as the iterator it was turned into (a rolled `for x in c.to_lowercase()` loop)"""
+    for _ in range(4):
+        if t[0] == "var" and len(t) > 2:
+            t = t[2]
+        elif t[0] == "call" and "into_iter" in t[1] and len(t[2]) == 1:
+            t = t[2][0]
+        else:
+            break
+    return t[0] == "call" and t[1].endswith("::to_lowercase") and len(t[2]) == 1 and is_elem(t[2][0])
+
+
 def fst_pypi_obligations(ctx, facts, key, lowercaser_key, rule="FST-PYPI"):
     summ = boolsum.Summarizer(facts)
     body = facts.body(key)
@@ -234,7 +246,7 @@ def fst_pypi_obligations(ctx, facts, key, lowercaser_key, rule="FST-PYPI"):
             if pth.endswith("::push") and models.cchar(args[1]) is not None:
                 eff.append(("emit", models.cchar(args[1])))
                 acc = tgt
-            elif pth.endswith("::extend") and args[1][0] == "call" and args[1][1].endswith("::to_lowercase") and is_elem(args[1][2][0]):
+            elif pth.endswith("::extend") and _lowercase_of_elem(args[1], is_elem):
                 eff.append(("emit-lower",))
                 acc = tgt
             elif pth.endswith("deref_mut"):
@@ -311,7 +323,7 @@ def fst_generic(facts, key):
             pth, tgt, args, _ = e
             if pth.endswith("::push") and models.cchar(args[1]) is not None:
                 outs.append(("const", ord(models.cchar(args[1]))))
-            elif pth.endswith("::extend") and args[1][0] == "call" and args[1][1].endswith("::to_lowercase") and is_elem(args[1][2][0]):
+            elif pth.endswith("::extend") and _lowercase_of_elem(args[1], is_elem):
                 outs.append(("lower",))
             elif pth.endswith("::push") and is_elem(args[1]):
                 outs.append(("same",))
